@@ -74,6 +74,8 @@ func runC03(l *core.Ledger) {
 			c14Ctor(l, r, c)
 		}
 	})
+	l.Rule("C03-F10", "no transparent replay: the library's own dial options configure no gRPC retry or hedging policy for the node stream (C06-P8 re-run) - grpc-go buffers what was sent on a stream until the server's first response and replays all of it on a retry, so every buffered call is handled twice")
+	l.With(map[string]string{"C06-P8": "C03-F10"}, func() { c06P8(l, r) })
 	c03F6(l)
 	// F7: what is queued is the caller's own request: its context is the
 	// caller's context parameter itself (a context the library derives and
